@@ -16,7 +16,7 @@
    exception class, or UB (C undefined behaviour / Py_FatalError) — never totalised away. *)
 From Coq Require Import ZArith List Bool String.
 From Cffi Require Export C03.Mem C03.Store.
-From Cffi Require Import C03.CExpr C03.Gen.
+From Cffi Require Import C03.CExpr C03.IR C03.Gen.
 Import ListNotations.
 Open Scope Z_scope.
 
